@@ -484,7 +484,7 @@ func run(r *core.R) {
 	}
 	// how busy the rest of the world is at a yield point: number of events
 	busy := r.Src.Intn(3, "busy")
-	h.evCount = [][]int{{900, 85, 12, 3}, {700, 240, 45, 15}, {500, 360, 100, 40}}[busy]
+	h.evCount = [][]int{{850, 120, 25, 5}, {650, 270, 60, 20}, {450, 380, 120, 50}}[busy]
 	r.Cfg("busy", busy)
 	h.evKinds = make([]int, evN)
 	h.evKinds[evPacket] = 60
